@@ -9,6 +9,8 @@ Shape B.  Three families of shards:
 * ``names`` -- the glyph-name grammar straight through ``encodingdb.name2unicode``.
 * ``tables``-- the four Latin encoding tables (as served by ``EncodingDB.get_encoding``) against
   independent sources (cp1252, mac_roman, the frozen Annex D PDFDocEncoding table, CFF standard strings).
+* ``std14`` -- every name of the built-in metrics table (14 canonical faces and their 12 alternative names) as BaseFont
+  without /Widths under three encodings, all 256 codes; alias -> canonical identity and frozen fingerprints of the table.
 * ``share`` -- two fonts in one document (Differences overlay must not leak into the shared base table); fonts of one
   /Font resource dictionary given partly as indirect references and partly as direct dictionaries, in every order.
 """
@@ -72,6 +74,9 @@ TOUNI: List[Optional[Tuple[list, list]]] = [
     ([], [(b"\x00", b"\xff", "Ѐ")]),  # every code
     # destinations that carry out of the low byte (U+00F0.. -> U+0109; last unit of a two-unit target; U+0FFE -> U+1003)
     ([], [(b"\x41", b"\x5a", "ð"), (b"\x61", b"\x63", "Aÿ"), (b"\x30", b"\x35", "\u0ffe")]),
+    # one stream holding several begincmap .. endcmap sections (a map with supplements appended): all of them count
+    ("sections", [([(b"\x41", "X")], []), ([(b"\x42", "Y"), (b"\x01", "Q")], [(b"\x61", b"\x63", "α")])]),
+    ("sections", [([], [(b"\x30", b"\x32", ["A", "BC", "D"])]), ([(b"\x43", "ffi")], []), ([(b"\x7f", "Z")], [(b"\x80", b"\x82", "Ā")])]),
 ]
 
 # widths: kind, basefont, firstchar, widths(list or None), missingwidth(or None)
@@ -114,6 +119,10 @@ FONTFILES = [
     ("standard",),
     ("vector", [(65, "A"), (66, "u110000"), (67, "C")]),
     ("vector", [(65, "A"), (66, "uni0041zzzz"), (67, "C")]),
+    # built-in vectors that give NO code a Unicode value: only private glyph names / no entries at all.  The built-in
+    # encoding is then empty, which is not the same as absent (nothing may be filled in from StandardEncoding).
+    ("vector", [(65, "G01"), (66, "G02"), (97, "g23"), (32, "G00")]),
+    ("vector", []),
 ]
 SPELL = ["direct", "indirect"]
 
@@ -134,15 +143,17 @@ BOUNDS = {"quick": {"deviations": 3, "shards": 96}, "thorough": {"deviations": 5
 
 META = {
     "rule": (
-        "font family: every choice vector over (subtype 4, base encoding 7, encoding form 2, Differences 11, ToUnicode 9, "
-        "widths 14, Type3 FontMatrix 5, embedded Type 1 header 5, spelling 2) with at most `deviations` non-default "
+        "font family: every choice vector over (subtype 4, base encoding 7, encoding form 2, Differences 11, ToUnicode 11 (two with several begincmap..endcmap sections), "
+        "widths 14, Type3 FontMatrix 5, embedded Type 1 header 7 (two whose vector gives no code a Unicode value), spelling 2) with at most `deviations` non-default "
         "choices (default = Type1, WinAnsi name, no Differences, no ToUnicode, Widths from 32 + MissingWidth), minus the "
         "combinations that are not fonts (Type3 x standard-14, FontMatrix on non-Type3, FontFile on TrueType/Type3/"
         "standard-14, ...); each surviving vector is one case = one generated PDF in which all 256 codes are shown; "
         "every code's (text, adv) is compared with the model. states/transitions = nodes/edges of the choice tree "
         "(distinct vector prefixes), traces = fonts executed and compared. names family: one case per glyph name "
         "passed to name2unicode; tables family: one case per (encoding, code) cell; share family: one case per "
-        "two-font document. non-trivial = the model expects at least one non-placeholder text and one non-zero "
+        "two-font document. std14 family: one case per (metrics name, encoding) document with all 256 codes, one per "
+        "metrics-table name (alternative name carries the canonical face's metrics; canonical metrics equal the "
+        "frozen fingerprint). non-trivial = the model expects at least one non-placeholder text and one non-zero "
         "advance (fonts), a non-empty expected string (names), a defined cell (tables)."
     ),
     "bound": {k: str(v) for k, v in BOUNDS.items()},
@@ -290,10 +301,11 @@ def build(vec: Tuple[int, ...]):
                 code += 1
     # ---- ToUnicode
     tu: Dict[int, str] = {}
-    if tou is not None:
-        for c, s in tou[0]:
+    tou_sections = [] if tou is None else (list(tou[1]) if tou[0] == "sections" else [tou])
+    for sec in tou_sections:
+        for c, s in sec[0]:
             tu[c[0]] = s
-        for a, b, t in tou[1]:
+        for a, b, t in sec[1]:
             for i, c in enumerate(range(a[0], b[0] + 1)):
                 if isinstance(t, list):
                     tu[c] = t[i]
@@ -396,7 +408,7 @@ def build(vec: Tuple[int, ...]):
         font["CharProcs"] = procs
         font["Resources"] = {}
     if tou is not None:
-        font["ToUnicode"] = doc.add(Stream({}, tounicode_cmap(tou[0], tou[1])))
+        font["ToUnicode"] = doc.add(Stream({}, b"".join(tounicode_cmap(sec[0], sec[1]) for sec in tou_sections)))
     content = b"BT /F1 %d Tf 10 700 Td " % FONTSIZE + ser(HexStr(bytes(range(256)))) + b" Tj ET"
     pdf = page_doc(content, {"F1": doc.add(font)}, doc=doc)
     return pdf, model
@@ -969,6 +981,105 @@ def run_share(st) -> None:
             st.violation(sig, {"family": "share", "enc": enc, "diff": DIFFS.index(diff), "order": order, "index": i, "pdf": pdf, "model": jmodel(model)}, exp, ob, what)
 
 
+# ------------------------------------------------------------------ std14 family: every metrics name
+# Alternative names of the standard fonts (PDF Reference 1.7, implementation note 62 / Table H.3): a font with one of
+# these BaseFont names and no /Widths takes the metrics of the canonical face.
+STD14_ALIASES = {
+    "Arial": "Helvetica", "Arial,Italic": "Helvetica-Oblique", "Arial,Bold": "Helvetica-Bold", "Arial,BoldItalic": "Helvetica-BoldOblique",
+    "CourierNew": "Courier", "CourierNew,Italic": "Courier-Oblique", "CourierNew,Bold": "Courier-Bold", "CourierNew,BoldItalic": "Courier-BoldOblique",
+    "TimesNewRoman": "Times-Roman", "TimesNewRoman,Italic": "Times-Italic", "TimesNewRoman,Bold": "Times-Bold", "TimesNewRoman,BoldItalic": "Times-BoldItalic",
+}
+STD14_CANONICAL = ["Courier", "Courier-Bold", "Courier-BoldOblique", "Courier-Oblique", "Helvetica", "Helvetica-Bold", "Helvetica-BoldOblique",
+                   "Helvetica-Oblique", "Symbol", "Times-Bold", "Times-BoldItalic", "Times-Italic", "Times-Roman", "ZapfDingbats"]
+STD14_ENCODINGS = [None, "WinAnsiEncoding", "MacRomanEncoding"]
+
+
+def metrics_fingerprint(w) -> Dict[str, Any]:
+    import hashlib
+
+    return {"blake2b8": hashlib.blake2b(repr(sorted(w.items())).encode(), digest_size=8).hexdigest(), "glyphs": len(w), "sum": sum(w.values())}
+
+
+def std14_doc(basefont: str, enc: Optional[str]):
+    from mc.pdfgen import type1_font
+
+    f = type1_font(basefont) if enc is None else type1_font(basefont, Encoding=N(enc))
+    content = b"BT /F1 %d Tf 10 700 Td " % FONTSIZE + ser(HexStr(bytes(range(256)))) + b" Tj ET"
+    return page_doc(content, {"F1": f})
+
+
+def check_std14_doc(basefont: str, enc: Optional[str]):
+    """-> (pdf, [(sig, code, expected, observed, what)], outcome)"""
+    from pdfminer.fontmetrics import FONT_METRICS
+
+    canonical = STD14_ALIASES.get(basefont, basefont)
+    metrics = FONT_METRICS[canonical][1]
+    names = R.latin_names(enc or "StandardEncoding")
+    pdf = std14_doc(basefont, enc)
+    try:
+        g = R.glyphs(pdf)[0]
+    except Exception as e:  # noqa
+        return pdf, [(f"C06/exception:{type(e).__name__}@std14", -1, "256 glyphs", f"{type(e).__name__}: {e}", "standard-font document raised")], ("exc",)
+    if len(g) != 256:
+        return pdf, [("C06/glyph-count", -1, 256, len(g), "standard-font document")], ("count", len(g))
+    viol = []
+    for code in range(256):
+        ch = R.agl_text(names[code]) if code in names else ""
+        exp_t = ch or "(cid:%d)" % code
+        exp_w = Fraction(metrics.get(ch, 0) if ch else 0) * FONTSIZE / 1000
+        if g[code][0] != exp_t:
+            viol.append(("C06/text:base", code, exp_t, g[code][0], f"{basefont}: text of code {code}"))
+        if not R.close(g[code][1], exp_w):
+            sig = "C06/std14-alias-takes-metrics-of-another-face" if basefont in STD14_ALIASES else "C06/width:std14-metric"
+            viol.append((sig, code, float(exp_w), g[code][1], f"{basefont} (metrics of {canonical}): advance of code {code} ({names.get(code)})"))
+    return pdf, viol, tuple((x[0], round(x[1], 6)) for x in g)
+
+
+def run_std14(st) -> None:
+    import json
+    import os
+
+    from pdfminer.fontmetrics import FONT_METRICS
+
+    # (a) the metrics table: every name is a canonical face or a known alternative name of one; an alternative name
+    #     carries the canonical face's metrics; the canonical metrics are the ones frozen on the snapshot
+    with open(os.path.join(os.path.dirname(os.path.dirname(os.path.abspath(__file__))), "data", "c06_std14_metrics.json")) as f:
+        frozen = json.load(f)["fingerprints"]
+    for name in sorted(FONT_METRICS):
+        st.states += 1
+        st.transitions += 1
+        st.traces += 1
+        st.case(("std14-table", name), nontrivial=True, outcome=("fp", name, metrics_fingerprint(FONT_METRICS[name][1])["blake2b8"]))
+        if name in STD14_ALIASES:
+            if FONT_METRICS[name][1] != FONT_METRICS[STD14_ALIASES[name]][1]:
+                st.violation("C06/std14-alias-takes-metrics-of-another-face", {"family": "std14-table", "name": name}, STD14_ALIASES[name],
+                             next((k for k in STD14_CANONICAL if FONT_METRICS[k][1] == FONT_METRICS[name][1]), "none of the 14"), f"metrics registered for {name}")
+        elif name in frozen:
+            got = metrics_fingerprint(FONT_METRICS[name][1])
+            if got != frozen[name]:
+                st.violation(f"C06/std14-metrics-changed:{name}", {"family": "std14-table", "name": name}, frozen[name], got, f"built-in metrics of {name} differ from the frozen snapshot")
+        else:
+            st.violation(f"C06/std14-unknown-metrics-name:{name}", {"family": "std14-table", "name": name}, "a standard-14 name or a documented alternative", name, "metrics name")
+    for name in STD14_CANONICAL + sorted(STD14_ALIASES):
+        if name not in FONT_METRICS:
+            st.violation(f"C06/std14-metrics-missing:{name}", {"family": "std14-table", "name": name}, "present", "absent", "metrics name")
+    # (b) through documents: every metrics name as BaseFont without /Widths, all 256 codes
+    for name in sorted(FONT_METRICS):
+        if name in ("Symbol", "ZapfDingbats"):
+            continue  # own encodings: explored (and recorded) by the font family
+        for enc in STD14_ENCODINGS:
+            pdf, viol, obs = check_std14_doc(name, enc)
+            st.states += 1
+            st.transitions += 1
+            st.traces += 1
+            st.case(("std14-doc", name, enc), nontrivial=True, outcome=obs)
+            for sig, code, exp, ob, what in viol:
+                if st.viol_counts[sig] >= st.MAX_VIOL_PER_SIG:
+                    st.viol_counts[sig] += 1
+                    continue
+                st.violation(sig, {"family": "std14-doc", "basefont": name, "encoding": enc, "code": code, "pdf": pdf}, exp, ob, what)
+
+
 # ------------------------------------------------------------------ shards
 def shards(tier):
     b = BOUNDS[tier]
@@ -981,7 +1092,7 @@ def shards(tier):
     nn = 8 if tier == "quick" else 16
     sz = (len(names) + nn - 1) // nn
     out += [("names", i, min(i + sz, len(names))) for i in range(0, len(names), sz)]
-    out += [("tables",), ("share",)]
+    out += [("tables",), ("share",), ("std14",)]
     return out
 
 
@@ -1024,6 +1135,9 @@ def run_shard(shard, tier, st):
     elif fam == "tables":
         run_tables(st)
         st.sample({"family": "tables", "encodings": list(R.ENC_COLUMN)})
+    elif fam == "std14":
+        run_std14(st)
+        st.sample({"family": "std14", "names": len(STD14_ALIASES) + len(STD14_CANONICAL), "encodings": STD14_ENCODINGS})
     elif fam == "share":
         run_share(st)
         run_mixed(st)
@@ -1053,6 +1167,20 @@ def replay(case):
         run_tables(st)
         for v in st.violations:
             if v["case"].get("encoding") == case["encoding"] and v["case"].get("code") == case["code"]:
+                out.append({"signature": v["signature"], "expected": repr(v["expected"]), "observed": repr(v["observed"])})
+    elif fam == "std14-doc":
+        _, viol, _ = check_std14_doc(case["basefont"], case["encoding"])
+        for sig, code, exp, ob, what in viol:
+            if code == case["code"]:
+                out.append({"signature": sig, "expected": repr(exp), "observed": repr(ob)})
+    elif fam == "std14-table":
+        from mc.core import Stats
+
+        st = Stats()
+        st.MAX_VIOL_PER_SIG = 10**6
+        run_std14(st)
+        for v in st.violations:
+            if v["case"].get("family") == "std14-table" and v["case"].get("name") == case["name"]:
                 out.append({"signature": v["signature"], "expected": repr(v["expected"]), "observed": repr(v["observed"])})
     elif fam == "leak":
         tables_changed()
